@@ -161,9 +161,14 @@ def sexec [Inhabited K] [Inhabited V] (KC : Codec K) (VC : Codec V) (F : SFaults
     if F.kv1 then .done (m.log .kvHas .fail) (.b false (serrW w (.inj .kv)))
     else .done (m.log .kvHas .ok) (.b (m.st.get (m.y ik)).isSome .nil)
   | .retDelPrefix, m =>
-    if F.kv1 then .done m (.e (serrW w (.inj .kv))) else .done { m with st := m.st.deletePrefix pfx } (.e .nil)
+    -- the store's bulk deletion (may fail up front or part-way: `bulkDelete`), its error handed through
+    match bulkDelete m.st (fun e => pfx.isPrefixOf e.1) (m.st.deletePrefix pfx) F with
+    | (st', none) => .done { m with st := st' } (.e .nil)
+    | (st', some e) => .done { m with st := st' } (.e (serrW w (.inj e)))
   | .retClear, m =>
-    if F.kv1 then .done m (.e (serrW w (.inj .kv))) else .done { m with st := [] } (.e .nil)
+    match bulkDelete m.st (fun _ => true) [] F with
+    | (st', none) => .done { m with st := st' } (.e .nil)
+    | (st', some e) => .done { m with st := st' } (.e (serrW w (.inj e)))
   | .iter kp vp c oe, m =>
     if F.kv1 then .cont ((m.setE oe (serrW w (.inj .kv))).log .kvIter .fail)
     else
